@@ -15,7 +15,7 @@ import (
 )
 
 func TestMain(m *testing.M) {
-	vstat.Rule("Generated histories of inc(v)/count/advance(d) on RollingCounter and IncA/IncB/Ratio on RatioCounter under a frozen clock; N in 1..20, resolution from {1s,1.5s,2s,2.5s,3s,7s,10s,1min} or a random ns-granular duration in [1s,100s], start instant with random phase, steps from {sub-resolution, ~resolution, exact multiples, several slots, >= one window, several windows}. Oracle: reference list of all increments; at every read sum(age <= (N-1)r) <= Count <= sum(age < Nr); Ratio within the interval implied by the two brackets and exactly 0 when both upper sums are 0. Non-trivial: (resolution != 1s or an idle gap > one window or increments in >= 3 slots) and lower != upper at >= 1 read. Histories may also append another counter (same or other geometry) filled at that instant: its events count as increments made now.")
+	vstat.Rule("Generated histories of inc(v)/count/advance(d) on RollingCounter and IncA/IncB/Ratio on RatioCounter under a frozen clock; N in 1..20, resolution from {1s,1.5s,2s,2.5s,3s,7s,10s,1min} or a random ns-granular duration in [1s,100s], start instant with random phase, steps from {sub-resolution, ~resolution, exact multiples, several slots, >= one window, several windows}. Oracle: reference list of all increments; at every read sum(age <= (N-1)r) <= Count <= sum(age < Nr); Ratio within the interval implied by the two brackets and exactly 0 when both upper sums are 0. Non-trivial: (resolution != 1s or an idle gap > one window or increments in >= 3 slots) and lower != upper at >= 1 read. Histories may also append another counter (same or other geometry) filled at that instant: its events count as increments made now. TestC17_RoundTripMetrics: RTMetrics with RTCounter geometry 2-40 buckets x {1,1.5,2,3,10} s; record/advance/append(collector of the same builder filled now)/read; TotalCount, NetworkErrorCount and every StatusCodesCounts entry inside the same bracket.")
 	vstat.Main(m.Run)
 }
 
@@ -323,4 +323,98 @@ func TestC17_Regression(t *testing.T) {
 		}
 		clock.Unfreeze()
 	}
+}
+
+// TestC17_RoundTripMetrics: the round-trip metrics object keeps one rolling counter for the total,
+// one for network errors and one per status code, all of the geometry its counter builder
+// (the RTCounter option) produces. The statement holds for each of them, for every geometry
+// the constructor accepts, and also for counts that arrive through Append from another metrics
+// object of the same builder that was filled at that very instant (its events are made now).
+func TestC17_RoundTripMetrics(t *testing.T) {
+	rapid.Check(t, func(t *rapid.T) {
+		n := rapid.IntRange(2, 40).Draw(t, "buckets")
+		r := rapid.SampledFrom([]time.Duration{time.Second, 2 * time.Second, 3 * time.Second, 10 * time.Second, 1500 * time.Millisecond}).Draw(t, "res")
+		phase := time.Duration(rapid.Int64Range(0, int64(200*time.Second)).Draw(t, "phase"))
+		clock.Freeze(epoch.Add(phase))
+		defer clock.Unfreeze()
+		builder := memmetrics.RTCounter(func() (*memmetrics.RollingCounter, error) { return memmetrics.NewCounter(n, r) })
+		m, err := memmetrics.NewRTMetrics(builder)
+		if err != nil {
+			t.Fatalf("NewRTMetrics with %d x %v counters: %v", n, r, err)
+		}
+		codes := []int{200, 404, 500, 502, 503, 504}
+		perCode := map[int][]ev{}
+		var all, neterr []ev
+		var now time.Duration
+		var log []string
+		appended, readsDiffer := 0, false
+		note := func(code, k int) {
+			perCode[code] = append(perCode[code], ev{now, k})
+			all = append(all, ev{now, k})
+			if code == 502 || code == 504 {
+				neterr = append(neterr, ev{now, k})
+			}
+		}
+		check := func(what string, got int64, evs []ev) {
+			lo, hi := bounds(evs, now, n, r)
+			if lo != hi {
+				readsDiffer = true
+			}
+			if got < lo || got > hi {
+				t.Fatalf("%d x %v counters, at +%v %s = %d, outside [%d,%d] (events within the last (N-1)r / Nr)\n%s", n, r, now, what, got, lo, hi, strings.Join(log, "\n"))
+			}
+		}
+		for i := rapid.IntRange(3, 50).Draw(t, "nops"); i > 0; i-- {
+			switch rapid.IntRange(0, 7).Draw(t, "op") {
+			case 0, 1, 2:
+				code := rapid.SampledFrom(codes).Draw(t, "code")
+				m.Record(code, time.Duration(rapid.IntRange(1, 900).Draw(t, "latMs"))*time.Millisecond)
+				note(code, 1)
+				log = append(log, fmt.Sprintf("+%v record(%d)", now, code))
+			case 3: // another collector (same builder), filled now, is merged in
+				o, err := memmetrics.NewRTMetrics(builder)
+				if err != nil {
+					t.Fatal(err)
+				}
+				var added []int
+				for k := rapid.IntRange(1, 4).Draw(t, "appendedRecords"); k > 0; k-- {
+					code := rapid.SampledFrom(codes).Draw(t, "appendedCode")
+					o.Record(code, 5*time.Millisecond)
+					note(code, 1)
+					added = append(added, code)
+				}
+				if err := m.Append(o); err != nil {
+					t.Fatalf("Append: %v", err)
+				}
+				appended++
+				log = append(log, fmt.Sprintf("+%v append(%v)", now, added))
+			case 4, 5:
+				d := genStep(t, n, r)
+				clock.Advance(d)
+				now += d
+				log = append(log, fmt.Sprintf("adv(%v)", d))
+			default:
+				check("TotalCount()", m.TotalCount(), all)
+				check("NetworkErrorCount()", m.NetworkErrorCount(), neterr)
+				counts := m.StatusCodesCounts()
+				for _, c := range codes {
+					check(fmt.Sprintf("StatusCodesCounts()[%d]", c), counts[c], perCode[c])
+				}
+				log = append(log, fmt.Sprintf("+%v read", now))
+			}
+		}
+		check("TotalCount()", m.TotalCount(), all)
+		counts := m.StatusCodesCounts()
+		for _, c := range codes {
+			check(fmt.Sprintf("StatusCodesCounts()[%d]", c), counts[c], perCode[c])
+		}
+		var cl []string
+		if appended > 0 {
+			cl = append(cl, "appended-collector")
+		}
+		if n != 10 || r != time.Second {
+			cl = append(cl, "non-default-geometry")
+		}
+		vstat.Case(fmt.Sprintf("rt|%d|%v|%v|%s", n, r, phase, strings.Join(log, ";")), readsDiffer || appended > 0, cl, map[string]any{"buckets": n, "resolution": r.String(), "history": log})
+	})
 }
